@@ -83,13 +83,20 @@ def run_case(ck, rng, stats, samples):
     conf = sb.write_conf(head + b' {\n\tmatch all ' + b' '.join(acts) + b'\n}\n')
     if not stdinmode:
         sb.add(src, 'cur' if pre == 'flag' else 'new', text)
-    rc, out, err = sb.run(['-'] if stdinmode else [], conf=conf, stdin=text if stdinmode else None,
-                          env={'VERIF_HELPER_OUT': hout, 'VERIF_HELPER_EXIT': exit_spec})
+    # a third of the runs with a move / flag before the exec: source and destination on different file systems
+    # (rename fails with EXDEV: the message is copied and the descriptor re-established)
+    xdev = pre in ('move', 'flag') and rng.randrange(3) != 0
+    env = {'VERIF_HELPER_OUT': hout, 'VERIF_HELPER_EXIT': exit_spec}
+    if xdev:
+        env['VFIO_XDEV'] = '1'
+    rc, out, err = sb.run(['-'] if stdinmode else [], conf=conf, stdin=text if stdinmode else None, env=env,
+                          preload=(os.path.join(common.VERIF, 'shim', 'libvfio.so') if xdev else None))
     stats['runs'] += 1
+    stats['xdev'] = stats.get('xdev', 0) + (1 if xdev else 0)
     calls = common.helper_calls(hout)
     rep = {'config': open(conf, 'rb').read().decode(errors='replace'), 'message': text.decode(errors='replace'), 'exit': rc,
            'helper_exit': exit_spec, 'stderr': err[-300:].decode(errors='replace')}
-    desc = '%s exec %s(exit %s) %s, %s' % (pre or '-', opts.decode(), exit_spec, post or '-', where)
+    desc = '%s%s exec %s(exit %s) %s, %s' % (pre or '-', ' (EXDEV)' if xdev else '', opts.decode(), exit_spec, post or '-', where)
     bad = None
     if len(calls) != 1:
         bad = 'the command ran %d times' % len(calls)
